@@ -9,7 +9,7 @@ ASSUMPTIONS = [
     'partition tables of a splitter are well formed: indices in range, the perfect and the binomial list duplicate-free and disjoint (precondition of partition; established by the constructors for option lists without repeated names - constructor contracts are shape-class only)',
     'partition noise: GeneralVolumeSplitter noise < 0.5 (as documented); LineageVolumeSplitter noise < 1 (noise == 1 with a draw of exactly 1.0 gives a zero-volume daughter, probability 2^-53); custom partition functions are outside the quantifier of the statement and excluded by precondition',
     'SimulateSingleCell: mode 1 (full trajectory), at least two sorted time points, cell state carries a state vector of the right length and positive volume; the interface virtual methods (lineage propensities >= 0, rule indices in range, volume rules/events) are abstract contracts (uninterpreted functions of their arguments)',
-    'SimulateCellLineage: one division (simulate_daughter_cells) is proved with the list-alignment invariant as its postcondition; the work-list loop itself is not under contract (a bounded exploration was too slow and was withdrawn; the native sweep watches it)',
+    'SimulateCellLineage: one division (simulate_daughter_cells) is proved with the list-alignment invariant as its postcondition; the work-list loop is covered by a generic-pass contract (one arbitrary queued cell processed, then cut): the call-site preconditions of partition / truncate / simulate_daughter_cells hold for every queued cell; whole-lineage properties rest on these plus the native sweep',
     'the bodies of the lineage interface methods (propensity vector, first firing death / division rule, chained volume rules, volume event) are proved against abstract symbols of the virtual rule / event methods; those virtual methods themselves (rule and event classes of lineage.pyx) are abstract contracts',
     'Schnitz / Lineage container accessors are not under contract (plain field getters)',
 ]
